@@ -204,11 +204,12 @@ func (r *Region) WriteSector(x, z int, data []byte) error {
 		r.offsets[z][x] = (n << 8) | (need & 0xFF)
 
 		// update file head
-		err := r.setHead(x, z, uint32(r.offsets[z][x]), uint32(time.Now().Unix()))
+		timestamp := time.Now().Unix()
+		err := r.setHead(x, z, uint32(r.offsets[z][x]), uint32(timestamp))
 		if err != nil {
 			return err
 		}
-		r.Timestamps[x][z] = int32(time.Now().Unix())
+		r.Timestamps[z][x] = int32(timestamp)
 	}
 
 	_, err := r.f.Seek(4096*int64(n), 0)
